@@ -3,9 +3,9 @@ PROP = dict(
     theorems=["Shangrla.C16.tileTo_spec", "Shangrla.C16.firstCrossing_spec", "Shangrla.C16.det_first_crossing",
               "Shangrla.C16.comparisonPop_spec", "Shangrla.C16.comparisonPop_ok_iff", "Shangrla.C16.marks_unit",
               "Shangrla.C16.assumed_population_comparison", "Shangrla.C16.assumed_population_polling",
-              "Shangrla.C16.find_eq", "Shangrla.C16.find_det_first_crossing",
+              "Shangrla.C16.find_eq", "Shangrla.C16.find_det_first_crossing", "Shangrla.C16.find_det_comparison",
               "Shangrla.C16.quantileInt_const", "Shangrla.C16.prefix_crossing", "Shangrla.C16.prefix_crossing_tail",
-              "Shangrla.C16.prefix_crossing_km",
+              "Shangrla.C16.prefix_crossing_km", "Shangrla.C16.find_prefix_crossing",
               "Shangrla.C16.maxOf_spec", "Shangrla.C16.contest_is_max", "Shangrla.C16.audit_contest_is_max",
               "Shangrla.C16.interleave_classes", "Shangrla.C16.interleave_counts"],
     groups={"samplesize": (1200, 12000)},
